@@ -78,6 +78,11 @@ func NewFileCache[MetadataT any](cfg *config.Config, rootDir string, maxCacheSiz
 		getLock: func(key CacheKey) *sync.RWMutex {
 			return getLock(c.locks, key)
 		},
+		getMetadata: func(key CacheKey) *EntryMetadata[MetadataT] {
+			c.mu.RLock()
+			defer c.mu.RUnlock()
+			return c.entriesMetadata[key]
+		},
 	})
 	c.janitor.start(ctx)
 	return c
